@@ -1,7 +1,7 @@
 (* C15 - the property theorems, nothing else.  Each is closed by [exact] of a lemma proved in Dsl/DslProofs.v.
    dsl_eval L g : L = per-loop iteration budget, g = remaining depth budget (300 - ScriptFrame::Depth). *)
 From Coq Require Import ZArith List String Bool.
-From Icv Require Import Dsl.DslDefs Dsl.DslOps Dsl.DslEval Dsl.DslProofs.
+From Icv Require Import Dsl.DslDefs Dsl.DslOps Dsl.DslEval Dsl.DslProofs Dsl.DslMono.
 Import ListNotations.
 Local Open Scope string_scope.
 
@@ -11,13 +11,12 @@ Theorem C15_deterministic : forall L g fr st e r1 r2,
 Proof. exact dsl_deterministic. Qed.
 Print Assumptions C15_deterministic.
 
-(* more loop budget never changes a result that is not "budget exhausted" - proved for the while loop with a fixed
-   sub-evaluator; the lifting through all of dsl_eval is NOT proved (hence _partial) *)
-Theorem C15_fuel_monotone_partial : forall ev L k fr st c b,
-  fst (dsl_while ev L fr st c b) <> DrAbort DaFuel ->
-  dsl_while ev (k + L) fr st c b = dsl_while ev L fr st c b.
-Proof. exact dsl_while_mono. Qed.
-Print Assumptions C15_fuel_monotone_partial.
+(* fuel monotonicity: more loop budget never changes a result that is not "loop budget exhausted" - for ALL programs,
+   frames, stores and depth budgets (lifted through every node, built-in and loop of dsl_eval in Dsl/DslMono.v) *)
+Theorem C15_fuel_monotone : forall L1 L2 g fr st e, (L1 <= L2)%nat ->
+  fst (dsl_eval L1 g fr st e) <> DrAbort DaFuel -> dsl_eval L2 g fr st e = dsl_eval L1 g fr st e.
+Proof. exact dsl_fuel_monotone. Qed.
+Print Assumptions C15_fuel_monotone.
 
 (* false && e, true || e, untaken branches: e is not evaluated, for every e including diverging/crashing ones *)
 Theorem C15_short_circuit :
